@@ -124,6 +124,15 @@ def configs_for(mode, tier, seed):
     cs = configs(tier, seed)
     keep = MODE_OPS[mode]
     out = []
+    if mode == "C15":
+        # eight cells in two columns: a value can be the most frequent overall while each of its per-column
+        # entries is smaller than the common value's count (frequency must be tallied per value, not per entry)
+        for common in PAL:
+            cs.append(dict(op="shift_common", shape=[4, 2], pal=PAL, common=common, new=None))
+        cs.append(dict(op="filtered", shape=[4, 2], pal=PAL, common=0))
+        if tier == "thorough":
+            cs.append(dict(op="filtered", shape=[4, 2], pal=PAL, common=2))
+            cs.append(dict(op="append", shape=[2, 2], shape2=[2, 2], pal=PAL, common=0, common2=1))
     for c in cs:
         if keep is not None and c["op"] not in keep:
             continue
